@@ -221,33 +221,45 @@ def make_args(ex, key, spec):
 
 
 def capture_closure(ex, key, spec):
-    """nested def: run the enclosing function on symbolic arguments until the def statement is reached and
-    return (FuncV with its real closure environment, path state at that point)"""
+    """nested def (any depth): run the chain of enclosing functions on symbolic arguments, each until the def statement of
+    the next one is reached; returns (FuncV with its real closure environment, path state there, outermost args)"""
     from .exec import _Captured
     from .spec import Spec
+    base = key.split("#")[0]
+    path, q = base.split("::")
     okey = ex.repo.outer_key(key)
-    ospec = ex.specs.get(okey) if ex.specs.has(okey) else Spec(okey)
-    ospec2 = Spec(okey, arg_types=dict(getattr(spec, "outer_arg_types", {}) or ospec.arg_types))
-    oargs, ofn, omod, ocls = make_args(ex, okey, ospec2)
-    st = St()
-    for c in getattr(spec, "outer_pre", []):
-        st = st.assume(c(NS(oargs)))
-    # the def of an inner function nested two levels down is reached by calling the intermediate function: the
-    # capture key is matched on FuncV.key, which the executor builds as <outer key>.<name>
-    ex.capture = (key.split("#")[0], [])
-    ex.cur_key = okey
-    try:
-        for _ in ex.run_function(FuncV(ofn, omod, cls=ocls, key=okey), oargs, st):
+    n_outer = len(okey.split("::")[1].split("."))
+    parts = q.split(".")
+    chain = [f"{path}::{'.'.join(parts[:k])}" for k in range(n_outer, len(parts) + 1)]   # outermost ... target
+    level_types = getattr(spec, "outer_arg_types_by_level", None) or [getattr(spec, "outer_arg_types", {}) or {}]
+    fv, st, first_args = None, St(), None
+    for lvl, (cur, nxt) in enumerate(zip(chain[:-1], chain[1:])):
+        types = level_types[lvl] if lvl < len(level_types) else {}
+        sp = Spec(cur, arg_types=dict(types))
+        if fv is None:
+            args, fn, mod, cls = make_args(ex, cur, sp)
+            for c in getattr(spec, "outer_pre", []):
+                st = st.assume(c(NS(args)))
+            cur_fv = FuncV(fn, mod, cls=cls, key=cur)
+            first_args = args
+        else:
+            args, fn, mod, cls = make_args(ex, cur, sp)
+            cur_fv = fv
+        ex.capture = (nxt, [])
+        ex.cur_key = chain[0]
+        try:
+            for _ in ex.run_function(cur_fv, args, st):
+                pass
+        except _Captured:
             pass
-    except _Captured:
-        pass
-    finally:
-        cap = ex.capture[1]
-        ex.capture = None
-        ex.cur_key = None
-    if not cap:
-        raise PyvcUnsupported(f"nested function {key} was not defined on any explored path of {okey}")
-    return cap[0][0], cap[0][1], oargs
+        finally:
+            cap = ex.capture[1]
+            ex.capture = None
+            ex.cur_key = None
+        if not cap:
+            raise PyvcUnsupported(f"nested function {nxt} was not defined on any explored path of {cur}")
+        fv, st = cap[0]
+    return fv, st, first_args
 
 
 def verify_function(ex, key, timeout_ms=10000, extra_pre=()):
